@@ -235,6 +235,7 @@ def differential(pid, tier, h, build, seed):
             nr = run_native(mod, so, lambda N: h.fn(N, job), inputs, h.mode)
         except Exception as e:
             errs.append('native error on %s: %s' % (inputs, e)); continue
+        if nr['status'] == 'assumption-violated': continue          # generated test input outside the harness's domain
         nstat = 'finding:' + nr['kind'] if nr['status'] == 'finding' else nr['status']
         nobs = nr.get('observations')
         if istat.startswith('unsupported'):
@@ -344,7 +345,7 @@ def run_property(pid, tier, seed, only=None, keep=False, nodiff=False):
             seen = {}
             for f in p['findings']:
                 seen.setdefault((f['kind'], f['msg']), []).append(f)
-            for (kind, msg), fl in seen.items():
+            for (kind, msg), fl in list(seen.items())[:8]:          # at most 8 distinct finding classes are replayed per harness
                 confirmed = None
                 for f in fl[:3]:
                     if f['inputs'] is None: continue
